@@ -42,7 +42,7 @@ COMPONENTS = {
     'real': ['demux.py __main__ (argument handling, library/lane detection, -n budget across lanes, --norejects, --scsepf, -fh, log file) re-executed with runpy in a forked child for ~1% (quick) / 4% (thorough) of the cases', 'DemultiplexingStrategyLoader.demultiplex', 'all registered strategy classes', 'BarcodeParser', 'FastqIterator', 'FastqHandle', 'HandleLimiter', 'gzip'],
     'stub': ['recording proxies around targetFile / rejectHandle / FastqIterator.__next__ (delegating)', 'SimFS fd budget + SimClock behind HandleLimiter in per-cell mode'],
 }
-REQUIRED_PROBES = ['cli_rerun_into_existing_output', 'cli_run', 'cli_multi_lane', 'cli_cutoff_hit', 'accepted_and_rejected_in_one_run', 'cutoff_hit', 'per_cell_output', 'fd_budget_fault_fired', 'no_reject_handle', 'high_phred_in_umi', 'unknown_index']
+REQUIRED_PROBES = ['cli_chunked_workflow', 'cli_argv_shuffled', 'cli_rerun_into_existing_output', 'cli_run', 'cli_multi_lane', 'cli_cutoff_hit', 'accepted_and_rejected_in_one_run', 'cutoff_hit', 'per_cell_output', 'fd_budget_fault_fired', 'no_reject_handle', 'high_phred_in_umi', 'unknown_index']
 
 _LOADERS = {}
 _INDEXES = None
@@ -218,7 +218,15 @@ def generate(seed, tier):
         cli = {'lane_cuts': cuts, 'n': st.schedule.choice([None, None, 1, max(1, n // 2), n, n + 3]), 'norejects': st.schedule.random() < 0.3,
                'scsepf': st.schedule.random() < 0.3, 'fh': st.schedule.choice([1, 2, 5, 500]),
                # state carried between runs: a trial run (-n small) or a pre-created folder, then the real run into the same -o
-               'prior': st.schedule.choice([None, None, 'trial-run', 'empty-folder'])}
+               'prior': st.schedule.choice([None, None, 'trial-run', 'empty-folder']),
+               # segments are laid out as lane/chunk files (a lane may be delivered in several chunk files per mate); the command line lists them in any order
+               'chunks_in_first_lane': st.schedule.choice([1, 1, 2]), 'argv_order': st.schedule.random(),
+               # the documented cluster workflow: one job per lane with -g <group>, then the glue step (cat *_TEMP_* > final)
+               'chunked_workflow': st.schedule.random() < 0.25}
+        if cli['chunked_workflow']:
+            cli['n'] = None
+            cli['prior'] = None
+            cli['scsepf'] = False       # demux.py itself never chunks one-file-per-cell runs (submit_in_chunks = not args.scsepf ...)
     return {'params': params, 'workload': reads, 'cli': cli}
 
 
@@ -536,13 +544,22 @@ def _cli_layer(case, d, log, viol, probe):
     nm = 2 if p['paired'] else 1
     bounds = [0] + list(c['lane_cuts']) + [n]
     files = []
-    for li in range(len(bounds) - 1):
+    lane_files = {}
+    nseg = len(bounds) - 1
+    k1 = min(c.get('chunks_in_first_lane', 1), nseg)
+    for li in range(nseg):
+        lane, chunk = (1, li + 1) if li < k1 else (li - k1 + 2, 1)
         for r in range(nm):
-            path = os.path.join(d, f'LIBX_L00{li + 1}_R{r + 1}_001.fastq.gz')
+            path = os.path.join(d, f'LIBX_L00{lane}_R{r + 1}_00{chunk}.fastq.gz')
             with gzip.open(path, 'wt', compresslevel=1) as f:
                 for rd in reads[bounds[li]:bounds[li + 1]]:
                     f.write(f"{rd['h'][r]}\n{rd['s'][r]}\n+\n{rd['q'][r]}\n")
             files.append(path)
+            lane_files.setdefault(lane, []).append(path)
+    if c.get('argv_order') is not None:
+        import random as _random
+        _random.Random(c['argv_order']).shuffle(files)      # the tool sorts its inputs; any listing order must give the same result
+        probe('cli_argv_shuffled')
     out = os.path.join(d, 'cli_out')
     argv = ['demux.py'] + files + ['-o', out, '--y', '-use', p['strategy'], '-hd', str(p['hd']), '-fh', str(c['fh'])]
     if nm == 1:
@@ -581,7 +598,32 @@ def _cli_layer(case, d, log, viol, probe):
     elif c.get('prior') == 'empty-folder':
         os.makedirs(os.path.join(out, 'LIBX'), exist_ok=True)
         probe('cli_rerun_into_existing_output')
-    res = launch(argv)
+    if c.get('chunked_workflow'):
+        # one job per lane (group ids 0,1,2.. as demux.py -sched assigns them), then the glue commands of demux.py re-done in Python
+        res = {'exception': None}
+        for gi, lane in enumerate(sorted(lane_files)):
+            av = ['demux.py'] + lane_files[lane] + ['-o', out, '--y', '-use', p['strategy'], '-hd', str(p['hd']), '-fh', str(c['fh']), '-g', str(gi)]
+            av += (['--se'] if nm == 1 else []) + (['--norejects'] if c['norejects'] else []) + (['--scsepf'] if c['scsepf'] else [])
+            r_ = launch(av)
+            if r_.get('exception'):
+                res = r_
+        lib_dir_ = os.path.join(out, 'LIBX')
+        if os.path.isdir(lib_dir_):
+            import glob as _glob
+            kinds = ['demultiplexedR1.fastq.gz', 'demultiplexedR2.fastq.gz', 'demultiplexing.log'] + ([] if c['norejects'] else ['rejectsR1.fastq.gz', 'rejectsR2.fastq.gz'])
+            for kind_ in kinds:
+                parts = sorted(_glob.glob(os.path.join(lib_dir_, '*_TEMP_' + kind_)))       # the shell expands the glob in sorted order
+                if not parts and kind_.endswith('R2.fastq.gz') and nm == 1:
+                    continue
+                with open(os.path.join(lib_dir_, kind_), 'wb') as o_:          # `cat parts > final` (truncates final first)
+                    for pth in parts:
+                        with open(pth, 'rb') as i_:
+                            o_.write(i_.read())
+                for pth in parts:
+                    os.remove(pth)
+        probe('cli_chunked_workflow')
+    else:
+        res = launch(argv)
     probe('cli_run')
     if len(bounds) > 2:
         probe('cli_multi_lane')
@@ -649,9 +691,10 @@ def _cli_layer(case, d, log, viol, probe):
         logt = open(os.path.join(lib_dir, 'demultiplexing.log')).read()
     except OSError:
         logt = ''
-    m = re.findall(r'^done, processed:\t(\d+) reads', logt, re.M)
-    if not m or int(m[-1]) != cutoff:
-        V('counter-mismatch', 'cli/log-processed', log_tail=logt[-200:], cutoff=cutoff)
+    # one "processed N read pairs" line per input file pair (per job in the chunked workflow): they must add up to what was consumed
+    m = re.findall(r'^processed (\d+) read pairs', logt, re.M)
+    if sum(int(x) for x in m) != cutoff:
+        V('counter-mismatch', 'cli/log-processed', log_tail=logt[-200:], cutoff=cutoff, processed_lines=m[:6])
     ys = sum(int(x) for x in re.findall(r'^%s\t(\d+)$' % re.escape(p['strategy']), logt, re.M))
     if ys != len(acc):
         V('counter-mismatch', 'cli/log-yield', yields_in_log=ys, demultiplexed_records=len(acc))
